@@ -117,7 +117,7 @@ Lemma read_chunk_spec fixed f m k file st D : (1 <= k)%nat -> Inv m file st D ->
   | _ => True
   end.
 Proof.
-  intros Hk [HI Hseek]. unfold read_chunk. unfold m_is_finished, m_reported, m_lines_after, m_oneline_incomplete, m_oneline_kept, m_size_after, m_header_line, m_plus_line in *.
+  intros Hk [HI Hseek]. unfold read_chunk. unfold m_is_finished, m_reported, m_lines_after, m_incomplete_line, m_pending_incomplete_line, m_oneline_incomplete, m_oneline_kept, m_size_after, m_header_line, m_plus_line in *.
   set (temp0 := match r_prepend st with [] => [] | p => [p] end).
   assert (Ht0 : concat temp0 = r_prepend st ++ []).
   { unfold temp0. destruct (r_prepend st); [reflexivity|]. cbn [concat]. reflexivity. }
@@ -133,11 +133,13 @@ Proof.
     set (chunk := concat temp) in *.
     destruct fin.
     + (* end of file reached in this call *)
+      destruct (fixed && true && negb (leftover_ok f (skipn size chunk))); [exact I|].
       cbn [r_finished]. split; [discriminate|intros _].
       rewrite (firstn_skipn size chunk).
       rewrite Hcc. rewrite (firstn_covers n X) by (rewrite <- HsX; apply Hf2; reflexivity).
       rewrite <- HI. rewrite <- !app_assoc. reflexivity.
     + specialize (Hf1 eq_refl). subst app. rewrite app_nil_r in Hcc.
+      rewrite andb_false_r. cbn [andb].
       destruct m; cbn [r_finished]; (split; [intros _|discriminate]).
       * (* seek mode: rewind by the length of the unconsumed tail *)
         rewrite (Hseek eq_refl) in *. cbn [List.app] in Hcc, HI.
@@ -160,6 +162,7 @@ Proof.
         cbn [r_prepend r_pos]. rewrite concat_snoc. rewrite <- app_assoc, (app_assoc (firstn size chunk)), firstn_skipn.
         rewrite Hcc, HsX. rewrite <- app_assoc, firstn_skipn. exact HI.
   - destruct HA as (p' & Hle & Hp & Hs).
+    destruct (fixed && negb (leftover_ok f pending)); [exact I|].
     set (X := skipn (r_pos st) file) in *.
     rewrite Hp. rewrite (firstn_covers (p' - r_pos st) X).
     + rewrite <- HI. rewrite <- !app_assoc. reflexivity.
